@@ -87,6 +87,9 @@ def main(argv=None):
         return 0
 
     t0 = time.time()
+    if getattr(mod, "PRELOAD", True):
+        # import Home Assistant + pyscript once, before forking: 16 workers importing it concurrently cost ~15 s each
+        import mc.world  # noqa: F401
     shards = mod.plan(ns.tier, seed)
     capped = False
     if ns.limit and len(shards) > ns.limit:
